@@ -602,6 +602,8 @@ func runC06(c *Ctx) {
 	c.activitySignalRule("R06.7")
 
 	// ---- R06.9
+	c.ruleOpt("R06.10", "what the dispatcher decides from the method descriptor (keep the context for a channel) is read after name and alias resolution")
+	c.descriptorReadAfterResolution("R06.10")
 	c.rule("R06.9", "cancel messages are executed in arrival order with the calls they refer to (one in-order executor; never handled on the reader's goroutine)")
 	c.arrivalOrderRule("R06.9")
 
